@@ -17,4 +17,5 @@ INVARIANT FailedTxnIsolated
 INVARIANT NoTrace
 INVARIANT DeactivatedRefuses
 INVARIANT IntendedState
+PROPERTY HistoryStable
 CHECK_DEADLOCK FALSE
